@@ -33,10 +33,15 @@ def timeline_legA(ctx, want_sim=True):
     gens = [("Gen_Timeline_quick.cfg", "-3,0,6")]
     if want_sim:
         gens.append(("Gen_Timeline_sim.cfg" if ctx.quick() else "Gen_Timeline_simT.cfg", "-9,-3,1,20"))
+        gens.append(("Gen_Timeline_long.cfg", "-3,2"))      # up to 12 keyframes
+        gens.append(("Gen_Timeline_near.cfg", "-3,0"))      # positions closer together than f32::EPSILON
     if not ctx.quick():
         gens.append(("Gen_Timeline_k3.cfg", "-3,4"))
     for cfg, scales in gens:
-        run = run_tlc(ctx, "Gen_Timeline", cfg, workers=4, capture="gen-" + cfg + ".txt", timeout=3000)
+        sub = None
+        if cfg in ("Gen_Timeline_long.cfg", "Gen_Timeline_near.cfg"):
+            sub = {"NRand": (60 if cfg.endswith("long.cfg") else 120) if ctx.quick() else 1500}
+        run = run_tlc(ctx, "Gen_Timeline", cfg, workers=4, capture="gen-" + cfg + ".txt", timeout=3000, subst=sub)
         n = count_replay(run["out"])
         if n == 0:
             raise ToolError("generator %s produced no behaviours" % cfg)
@@ -84,7 +89,8 @@ def mc_timescale(ctx):
 
 
 RULE_TL = ("TLC enumerates every keyframe list within the bounds of the cfg (positions k/PD incl. repeats, any property subset, "
-           "optional easing) in every insertion order, plus pseudo-random lists of up to 6 keyframes over 4 properties; each builder "
+           "optional easing) in every insertion order, plus pseudo-random lists of up to 6 keyframes over 4 properties, of up to 12 keyframes "
+           "over 2, and lists whose positions are distinct but closer together than f32::EPSILON (0.5 and the next float); each builder "
            "state is one behaviour, printed with the spec's predicted value terms at EVERY tick from 0 to past the end for timings "
            "drawn from a pool of 16 (delay/repeat/reverse/non-dyadic cycles) and replayed through the real builder + derive(Animate) "
            "timeline at several tick scales; distinct = distinct builder states x scales; non-trivial = at least one keyframe")
@@ -316,7 +322,7 @@ def bevy_validate(ctx, trace, label, stats):
 
 def bevy_legs(ctx):
     # leg A: TLC enumerates the input schedules
-    for kw in ((1, 3, 4, 5) if ctx.quick() else range(1, 7)):
+    for kw in ((1, 3, 5, 6) if ctx.quick() else range(1, 7)):
         run = run_tlc(ctx, "MC_Bevy", "Gen_Bevy.cfg", workers=4, subst={"KW": kw, "MaxSteps": 4 if ctx.quick() else 5}, capture="gen-bevy.txt", timeout=3000)
         if count_replay(run["out"]) == 0:
             raise ToolError("MC_Bevy generator produced no schedules")
